@@ -166,6 +166,9 @@ class FnWiring:
                 if not getattr(self, "_in_test", False):
                     env.setdefault("$pend", set()).difference_update(env[e.id])
                 return set(env[e.id])
+            c_ = _module_constant(e.id)
+            if c_ is not _NO:
+                return {("const", c_)}      # a module-level name for a plain constant reads as the constant
             return {("global", e.id)}
         if isinstance(e, ast.Attribute):
             return {("attr", d, e.attr) for d in self.ev(e.value, env, guards)}
@@ -356,6 +359,10 @@ class FnWiring:
                 for d in v:
                     if d[0] in ("tuple", "list") and len(d[1]) == len(t.elts):
                         comp |= set(d[1][i])
+                    elif d[0] == "elem" and d[1][0] == "appended" and d[1][2][0] in ("tuple", "list") and len(d[1][2][1]) == len(t.elts):
+                        comp |= set(d[1][2][1][i])       # an element of a list of tuples that were appended: the i-th component of the appended tuple
+                    elif d[0] == "elem" and d[1][0] in ("list", "tuple") and d[1][1] == ():
+                        pass                             # the empty display the list started as has no elements
                     else:
                         comp.add(("item", d, i))
                 self.assign(tt, comp, env)
@@ -433,7 +440,9 @@ class FnWiring:
                     self.appends.setdefault(key, []).append((frozenset(c._args[-1]), c.func.attr, c, guards))
                     self.append_roots = getattr(self, "append_roots", {})
                     self.append_roots.setdefault(key, (root.id, set(), c.lineno))[1].update(d for d in env.get(root.id, ()) if d[0] != "appended")
-                    if isinstance(base, ast.Name) and base.id in env:
+                    if isinstance(base, ast.Name) and base.id in env and all(d[0] in ("list", "tuple", "const", "appended") for d in env[base.id]):
+                        # (a local LIST that is being filled; a local that merely names a list living in a node - `items = node.block_items` -
+                        # reads as that path, whatever is appended through it)
                         env[base.id] = set(env[base.id]) | {("appended", c.func.attr, d) for d in c._args[-1]}
             if self._noreturn(c):
                 return None
@@ -569,6 +578,28 @@ _cache = {}
 CALL_LA = {}          # (callee, line of call) -> look-ahead set at that call (from the grammar model), set by wirecheck
 INLINE = set()        # names of private helpers to interpret in place (set by wirecheck: methods the reviewed reference does not know)
 METHODS = {}          # name -> FunctionDef of the analysed class
+
+
+_NO = object()
+_modconsts = {}
+
+
+def _module_constant(name):
+    """value of a module-level name bound exactly once to a str / int / bool / None literal in c_parser.py or ast_transforms.py, else _NO"""
+    if name not in _modconsts:
+        val = _NO
+        for modname in ("c_parser", "ast_transforms"):
+            try:
+                mod = S.module(modname)
+            except Exception:
+                continue
+            sts = mod.assigns.get(name, [])
+            if len(sts) == 1:
+                v = getattr(sts[0], "value", None)
+                if isinstance(v, ast.Constant) and (v.value is None or isinstance(v.value, (str, int, bool))):
+                    val = v.value
+        _modconsts[name] = val
+    return _modconsts[name]
 
 
 def of(modname, cls, method):
